@@ -22,6 +22,7 @@ import (
 
 	"github.com/olive-io/bpmn/schema"
 	"github.com/olive-io/bpmn/v2/pkg/tracing"
+	"github.com/olive-io/bpmn/v2/pkg/verifhook"
 )
 
 type parallelGateway struct {
@@ -84,6 +85,7 @@ func (gw *parallelGateway) NextAction(ctx context.Context, flow Flow) chan IActi
 	})
 
 	response := make(chan IAction)
+	verifhook.Point("gw.parallel.next")
 	gw.mch <- nextActionMessage{response: response, flow: flow}
 	return response
 }
